@@ -1,8 +1,84 @@
+import json
+import os
+import random
+import subprocess
+import sys
+
 import gen
+import nv
 from props._local import run_local
 
-# algorithms whose `Sound` theorem is proved; the others are covered by correspondence + oracle only
+
+def big_products(ctx):
+    """COMPILED mode, linear constraints whose single terms a_i*x_i exceed 32 bits although every coefficient, bound and the
+    right-hand side fit int32 and the true sums fit 63 bits: the compiled code computes them exactly (int64 promotion); the
+    interpreted engine does not (known finding K2), so these inputs are only compared in compiled mode — against the model
+    (unbounded integers) and, on instantiated boxes, against exact Python arithmetic"""
+    rng = random.Random(ctx["seed"] + 505)
+    n_cases = 300 if ctx["tier"] == "quick" else 6000
+    cases = []
+    for _ in range(n_cases):
+        alg = rng.choice(["affine_eq", "affine_eq", "affine_leq", "affine_geq"])
+        n = rng.randint(1, 4)
+        cs = [rng.choice([-1, 1]) * rng.choice([1, 7, 1000, 50000, 100000, 99991]) for _ in range(n)]
+        box = []
+        for _ in range(n):
+            a = rng.choice([0, 1, 3, 14999, 15000, 30000, 20000, 21474])
+            box.append((a, a + rng.choice([0, 0, 0, 1, 2])))
+        pick = [rng.randint(lo, hi) for lo, hi in box]
+        rhs = sum(c * x for c, x in zip(cs, pick)) + rng.choice([0, 0, 0, 1, -1])
+        if abs(rhs) >= 2 ** 31 - 1:
+            continue
+        cases.append([alg, cs + [rhs], [list(d) for d in box]])
+    work = os.path.join(nv.VERIF, ".cache", "work")
+    os.makedirs(work, exist_ok=True)
+    base = os.path.join(work, f"C05b-{os.getpid()}")
+    json.dump(cases, open(base + ".cases", "w"))
+    out = None
+    try:
+        r = subprocess.run([sys.executable, os.path.join(os.path.dirname(os.path.abspath(nv.__file__)), "jit_calls.py"), base + ".cases", base + ".out"],
+                           capture_output=True, text=True, timeout=1200)
+        if r.returncode == 0 and os.path.exists(base + ".out"):
+            out = json.load(open(base + ".out"))
+    except subprocess.TimeoutExpired:
+        pass
+    for ext in (".cases", ".out"):
+        if os.path.exists(base + ext):
+            os.remove(base + ext)
+    corr, viol = [], []
+    if out is None:
+        ctx["report"].count("big_products_worker_failed", None, 1)
+        return corr, viol
+    answers = nv.Model().ask([f"prop {a} {nv.enc_ints(ps)} {nv.enc_box([tuple(d) for d in b])}" for a, ps, b in cases])
+    for (alg, ps, b), (st, res), ans in zip(cases, out, answers):
+        ctx["report"].cov["evaluations"] += 1
+        ctx["report"].count("big_products_compiled", alg)
+        impl = "0" if st == 0 else (f"{st} {nv.enc_box([tuple(d) for d in res])}" if st not in ("oob", "hang") else str(st))
+        case = {"alg": alg, "params": ps, "box": b, "mode": "jit"}
+        if impl != ans:
+            corr.append(dict(case, implementation=impl, model=ans))
+        # exact arithmetic on small boxes
+        vols = 1
+        for lo, hi in b:
+            vols *= hi - lo + 1
+        if vols <= 81:
+            import itertools
+            cs, k = ps[:-1], ps[-1]
+            rel = {"affine_eq": lambda v: v == k, "affine_leq": lambda v: v <= k, "affine_geq": lambda v: v >= k}[alg]
+            sols = [t for t in itertools.product(*[range(lo, hi + 1) for lo, hi in b]) if rel(sum(c * x for c, x in zip(cs, t)))]
+            if st == 0 and sols:
+                viol.append(dict(case, kind="sound", detail=f"compiled code reports inconsistency although {sols[0]} satisfies the constraint (terms exceed 32 bits)"))
+            elif st not in (0, "oob", "hang"):
+                lost = [t for t in sols if any(x < d[0] or x > d[1] for x, d in zip(t, res))]
+                if lost:
+                    viol.append(dict(case, kind="sound", detail=f"compiled code removes the solution {lost[0]}: output {res}"))
+    return corr, viol
+
+
 def run(ctx):
     r = run_local(ctx, "C05", {"sound"}, gen.ALGS, ["max_eq_loses_solution"], "runAlg (NucsModel/Registry.lean) vs compute_domains_*")
-    r["partial"] = ["Sound is proved for all 21 algorithms; for alldifferent and gcc the registered model is the faithful port wrapped in a proved result checker: that this model equals the code (the checker never rejects) is what the correspondence shows on every run"]
+    c, v = big_products(ctx)
+    r["corr_diffs"] += c
+    r["violations"] += v
+    r["partial"] = ["Sound is proved for all 21 algorithms about the registered models; alldifferent: the registered model IS the line-by-line port (C14_alldifferent_is_port); gcc: C05_gcc_port is about the raw port (every number of values, upper capacities >= 1) and the registered model is the port for at most 12 values (C14_gcc_is_port)"]
     return r
